@@ -340,7 +340,7 @@ def run_check(pid, tier, base_seed=None, n_runs=None, workers=None, budget_s=Non
             reported.add(v['inv'])
             events, cfg = r.get('events'), r.get('cfg')
             path = None
-            if events is not None and getattr(mod, 'MINIMISE', True) and time.time() - t_min0 < 120:
+            if events is not None and getattr(mod, 'MINIMISE', True) and v['inv'] not in getattr(mod, 'NO_MINIMISE_INVS', ()) and time.time() - t_min0 < 120:
                 try:
                     small, best, tests = minimise(pid, r['seed'], cfg, events, v['inv'],
                                                   budget_s=float(os.environ.get('VERIF_MIN_S', '40')))
